@@ -171,7 +171,7 @@ def sectionless_variables():
         src = strip_comments(open(os.path.join(COQ, fn)).read())
         depth = 0
         for i, line in enumerate(src.split('\n'), 1):
-            if re.match(r'\s*Section\s+\w+\s*\.', line):
+            if re.match(r'\s*(Section|Module)\s+\w+', line) and not re.match(r'\s*Module\s+\w+\s*:=', line):
                 depth += 1
             elif re.match(r'\s*End\s+\w+\s*\.', line) and depth > 0:
                 # `End` also closes modules; modules are not used in this development
@@ -209,28 +209,22 @@ def audit_property_file(pfile, required):
     if rc != 0:
         problems.append('%s.v does not compile: %s' % (pfile, out[-1500:]))
         return dict(ok=False, theorems={}, problems=problems, log=out)
-    # Parse the output: blocks are either "Closed under the global context" or "Axioms:\n name\n  : type ..."
+    # Parse the output: blocks are either "Closed under the global context" or "Axioms:\n name : type ..."
     blocks = re.split(r'(?m)^(?=Closed under the global context|Axioms:)', out)
     blocks = [b for b in blocks if b.startswith('Closed under') or b.startswith('Axioms:')]
     theorems = {}
     if len(blocks) != len(printed):
         problems.append('%s.v: %d Print Assumptions commands but %d result blocks' % (pfile, len(printed), len(blocks)))
+    allowed_last = {a.split('.')[-1] for a in STDLIB_AXIOMS} | PRIM_NAMES
     for name, b in zip(printed, blocks):
         if b.startswith('Closed under'):
             theorems[name] = []
             continue
-        axs = re.findall(r'(?m)^([A-Za-z_][A-Za-z0-9_.\']*)\s*(?::|$)', b[len('Axioms:'):])
-        axs = [a for a in axs if a not in ('Axioms',)]
+        axs = re.findall(r'(?m)^([A-Za-z_][A-Za-z0-9_.\']*)', b[len('Axioms:'):])
         theorems[name] = axs
         for a in axs:
-            short = a
-            if a in STDLIB_AXIOMS or a.startswith(PRIMITIVE_PREFIXES):
-                continue
-            if any(a == s.split('.', 1)[-1] or s.endswith('.' + a) for s in STDLIB_AXIOMS):
-                continue
-            if is_primitive(a):
-                continue
-            problems.append('%s depends on non-allow-listed assumption %s' % (name, short))
+            if a.split('.')[-1] not in allowed_last:
+                problems.append('%s depends on non-allow-listed assumption %s' % (name, a))
     return dict(ok=not problems, theorems=theorems, problems=problems, log=out)
 
 
@@ -243,10 +237,6 @@ PRIM_NAMES = {
     'normfr_mantissa_spec', 'frshiftexp_spec', 'ldshiftexp_spec', 'next_up_spec', 'next_down_spec', 'classify_spec',
     'head0', 'tail0', 'ltb', 'leb', 'compare', 'addcarryc', 'subcarryc', 'diveucl_21', 'addmuldiv',
 }
-
-
-def is_primitive(a):
-    return a.split('.')[-1] in PRIM_NAMES
 
 
 def load_known_findings():
